@@ -4,7 +4,7 @@
 -/
 namespace Cobweb.Sc
 
-inductive SKind | f | n | s | o
+inductive SKind | f | n | s | o | m
 deriving DecidableEq, Repr, Inhabited
 
 structure SCall where
@@ -19,6 +19,8 @@ inductive SOp
   | q (c : SCall)
   | w (v : Nat)
   | x (id : Nat)
+  | g (key : Nat)                  -- queued `register_named_system(key, fresh system)`
+  | v (key : Nat)                  -- queued `IdMappedSystems::revoke(key)`
 deriving DecidableEq, Repr, Inhabited
 
 inductive SEv
@@ -30,6 +32,8 @@ inductive SEv
   | despawned (id : Nat)
   | capped (k : SKind) (key : Nat)
   | call (k : SKind) (key : Nat)
+  | registered (key : Nat)
+  | revoked (key : Nat)
 deriving DecidableEq, Repr, Inhabited
 
 def upd {β : Type} (f : Nat → β) (a : Nat) (b : β) : Nat → β := fun x => if x = a then b else f x
@@ -105,6 +109,10 @@ def exec (p : SProg) : Nat → SSt → Task → SSt × Option Nat
     | .q c => (tryCall (exec p fuel) st c, none)
     | .w v => (st.emit (.write v), none)
     | .x id => (({ st with sstore := upd st.sstore id none } : SSt).emit (.despawned id), none)
+    -- `register_named_system`: the slot gets a fresh system, whatever it held (also while the key's system is running)
+    | .g key => (({ st with nstore := upd st.nstore key (some (some 0)) } : SSt).emit (.registered key), none)
+    -- `revoke`: the slot is removed
+    | .v key => (({ st with nstore := upd st.nstore key none } : SSt).emit (.revoked key), none)
     | .d _ => (st, none)
   | fuel + 1, st, .call c =>
     match c.kind with
@@ -128,6 +136,14 @@ def exec (p : SProg) : Nat → SSt → Task → SSt × Option Nat
       -- cached system of the key is neither used nor touched
       let r := runBody (exec p fuel) p st .f c.key c.key 0 c.input
       (r.1, some r.2)
+    | .m =>
+      -- `named_syscall_direct`: only a registered system that is not running can be called; put back like `named_syscall`
+      match st.nstore c.key with
+      | some (some cnt) =>
+        let st := { st with nstore := upd st.nstore c.key (some none) }
+        let r := runBody (exec p fuel) p st .n c.key c.key cnt c.input
+        ({ r.1 with nstore := upd r.1.nstore c.key (some (some (cnt + 1))) }, some r.2)
+      | _ => (st, none)
     | .s =>
       match st.sstore c.key with
       | none => (st, none)
@@ -147,6 +163,8 @@ inductive STop
   | spawn (defKey : Nat)
   | call (c : SCall)
   | despawn (id : Nat)
+  | reg (key : Nat)
+  | revoke (key : Nat)
 deriving DecidableEq, Repr, Inhabited
 
 def fuelMax : Nat := 4000
@@ -155,5 +173,7 @@ def runTop (p : SProg) (st : SSt) : STop → SSt
   | .spawn d => ({ st with sstore := upd st.sstore st.nspawn (some (some 0)), sdef := upd st.sdef st.nspawn d, nspawn := st.nspawn + 1 } : SSt).emit (.spawned st.nspawn d)
   | .call c => tryCall (exec p fuelMax) st c
   | .despawn id => ({ st with sstore := upd st.sstore id none } : SSt).emit (.despawned id)
+  | .reg key => ({ st with nstore := upd st.nstore key (some (some 0)) } : SSt).emit (.registered key)
+  | .revoke key => ({ st with nstore := upd st.nstore key none } : SSt).emit (.revoked key)
 
 end Cobweb.Sc
